@@ -396,54 +396,76 @@ func (c *Ctx) execBodyEdges(fr *Frame, st *State, reach T) (*State, T, Val, []re
 	}
 	loops := map[*ssa.BasicBlock]*loopCtx{}
 	for _, b := range topoOrder(fn) {
-		var cur *State
-		var r T
+		type start struct {
+			st *State
+			r  T
+			in []edgeInB
+		}
+		var starts []start
 		if b == fn.Blocks[0] {
-			cur, r = st, reach
+			starts = []start{{st, reach, nil}}
 		} else {
 			in := ins[b]
 			if len(in) == 0 {
 				continue
 			}
-			var es []edgeIn
-			var cs []T
-			for _, e := range in {
-				es = append(es, edgeIn{e.cond, e.st})
-				cs = append(cs, e.cond)
+			_, isLoop := fr.loopOrd[b]
+			_, isRet := b.Instrs[len(b.Instrs)-1].(*ssa.Return)
+			hasPhi := false
+			if _, ok := b.Instrs[0].(*ssa.Phi); ok {
+				hasPhi = true
 			}
-			cur = c.merge(es)
-			r = c.sc.def(fmt.Sprintf("reach.f%d.b%d", fr.id, b.Index), sBool, or(cs...))
-			fr.curIns = in
-		}
-		if ord, isLoop := fr.loopOrd[b]; isLoop {
-			cur = c.enterLoop(fr, b, ord, cur, r)
-			loops[b] = &loopCtx{head: cur.clone(), hreach: r}
-		}
-		dead := false
-		for _, instr := range b.Instrs {
-			switch t := instr.(type) {
-			case *ssa.If:
-				cond := fr.val(c, t.Cond).one()
-				cn := c.sc.def(fmt.Sprintf("br.f%d.b%d", fr.id, b.Index), sBool, cond)
-				c.pushEdge(fr, ins, b, b.Succs[0], and(r, cn), cur, loops)
-				c.pushEdge(fr, ins, b, b.Succs[1], and(r, not(cn)), cur, loops)
-			case *ssa.Jump:
-				c.pushEdge(fr, ins, b, b.Succs[0], r, cur, loops)
-			case *ssa.Return:
-				var res Val
-				res.Typ = fn.Signature.Results()
-				for _, x := range t.Results {
-					res.L = append(res.L, fr.val(c, x).L...)
+			if isRet && !isLoop && !hasPhi && len(in) > 1 && len(in) <= 16 {
+				// tail duplication: a returning block is executed once per
+				// incoming edge, so postconditions see unmerged states
+				for _, e := range in {
+					starts = append(starts, start{e.st.clone(), e.cond, []edgeInB{e}})
 				}
-				rets = append(rets, retEdge{r, cur, res})
-			case *ssa.Panic:
-				c.safe("panic:"+c.describeValue(t.X), r, "false", t.Pos())
-				dead = true
-			default:
-				c.step(fr, cur, r, instr)
+			} else {
+				var es []edgeIn
+				var cs []T
+				for _, e := range in {
+					es = append(es, edgeIn{e.cond, e.st})
+					cs = append(cs, e.cond)
+				}
+				cur := c.merge(es)
+				r := c.sc.def(fmt.Sprintf("reach.f%d.b%d", fr.id, b.Index), sBool, or(cs...))
+				starts = []start{{cur, r, in}}
 			}
-			if dead {
-				break
+		}
+		for _, s0 := range starts {
+			cur, r := s0.st, s0.r
+			fr.curIns = s0.in
+			if ord, isLoop := fr.loopOrd[b]; isLoop {
+				cur = c.enterLoop(fr, b, ord, cur, r)
+				loops[b] = &loopCtx{head: cur.clone(), hreach: r}
+			}
+			dead := false
+			for _, instr := range b.Instrs {
+				switch t := instr.(type) {
+				case *ssa.If:
+					cond := fr.val(c, t.Cond).one()
+					cn := c.sc.def(fmt.Sprintf("br.f%d.b%d", fr.id, b.Index), sBool, cond)
+					c.pushEdge(fr, ins, b, b.Succs[0], and(r, cn), cur, loops)
+					c.pushEdge(fr, ins, b, b.Succs[1], and(r, not(cn)), cur, loops)
+				case *ssa.Jump:
+					c.pushEdge(fr, ins, b, b.Succs[0], r, cur, loops)
+				case *ssa.Return:
+					var res Val
+					res.Typ = fn.Signature.Results()
+					for _, x := range t.Results {
+						res.L = append(res.L, fr.val(c, x).L...)
+					}
+					rets = append(rets, retEdge{r, cur, res})
+				case *ssa.Panic:
+					c.safe("panic:"+c.describeValue(t.X), r, "false", t.Pos())
+					dead = true
+				default:
+					c.step(fr, cur, r, instr)
+				}
+				if dead {
+					break
+				}
 			}
 		}
 	}
